@@ -50,8 +50,8 @@
 From AV Require Import Base.Bytes Base.Outcome Hash.HashModel Tree.Heap Tree.Ops Tree.Script Tree.Serialize Tree.Inv.
 From AV Require Import Tree.Files Tree.FilesProofsProj Tree.FilesProofsFrame Tree.FilesProofsAdd Tree.FilesProofsRemove Tree.FilesProofsExact Tree.FilesProofsLast Tree.FilesProofsMove
   Tree.FilesProofsInv Tree.FilesProofsHist Tree.FilesProofsTop Tree.FilesProofsExact2 Tree.FilesProofsOwned Tree.FilesProofsText Tree.FilesProofsLoad Tree.FilesProofsOp2
-  Tree.FilesLoad Tree.FilesProofsMerge Tree.FilesProofsBridge Tree.FilesProofsLoad2 Tree.FilesProofsLoad3 Tree.FilesProofsLoad4 Tree.FilesProofsLoad5.
-From AV Require Tree.Load Tree.MergeSpec Tree.MergePure Tree.MergePureProofs Tree.LoadRefineBase Tree.LoadRefinePure Tree.LoadRefineMain Tree.LoadRefineTop.
+  Tree.FilesLoad Tree.FilesProofsMerge Tree.FilesProofsBridge Tree.FilesProofsLoad2 Tree.FilesProofsLoad3 Tree.FilesProofsLoad4 Tree.FilesProofsLoad5 Tree.FilesProofsOp2b.
+From AV Require Tree.InvLoad Tree.Load Tree.MergeSpec Tree.MergePure Tree.MergePureProofs Tree.LoadRefineBase Tree.LoadRefinePure Tree.LoadRefineMain Tree.LoadRefineTop.
 From AV Require Import Tree.Script2.
 From AV Require Tree.Index Tree.Copy Xml.Parser Xml.Serializer Xml.RoundTripFile.
 Open Scope list_scope.
@@ -546,6 +546,35 @@ Theorem C10_load_root_partial_witness :
     TreeInv w /\ FilesInv TinyF.tiny w /\ FilesOwned w /\ nth_opt (w_models w) 0 = Some x /\ ~ RootFull w x /\
     TinyL.ld w = Val (OK fid, w') /\ nth_opt (w_models w') 0 = Some x' /\ ~ FilesInvW w' x'.
 Proof. exact root_partial_witness. Qed.
+
+(* ---------- the WHOLE alphabet op2, OpLoad and OpDuplicate included: Core (C03_core_inv2) and FilesOwned are kept by
+   every step outside C03's Known_load (a merge that uses an incoming element twice; a load rejected with
+   InvalidFileMerge: the rollback).  No other exclusion. ---------- *)
+Theorem C10_files_owned_step2 :
+  forall (T : tables) (tab_el tab_at tab_en : nametab) (check_fn : N -> list N -> res bool)
+         (float_parse : list N -> option N) (float_fmt : N -> list N)
+         (LATEST name_index name_definition_ref attr_schema_location : N) (root_attrs : list (N * cdata))
+         (o : op2) (w : world) (r : out value2) (w' : world),
+  Core w -> FilesOwned w ->
+  InvLoad.Known_load T tab_el tab_at tab_en check_fn float_parse float_fmt LATEST name_index name_definition_ref
+                     attr_schema_location root_attrs w o = false ->
+  run_op2 T tab_el tab_at tab_en check_fn float_parse float_fmt LATEST name_index name_definition_ref
+          attr_schema_location root_attrs o w = Val (r, w') ->
+  Core w' /\ FilesOwned w'.
+Proof. exact owned_step2_all. Qed.
+
+Theorem C10_files_owned_history2 :
+  forall (T : tables) (tab_el tab_at tab_en : nametab) (check_fn : N -> list N -> res bool)
+         (float_parse : list N -> option N) (float_fmt : N -> list N)
+         (LATEST name_index name_definition_ref attr_schema_location : N) (root_attrs : list (N * cdata))
+         (l : list op2) (w w' : world),
+  Core w -> FilesOwned w ->
+  steps_clean2 T tab_el tab_at tab_en check_fn float_parse float_fmt LATEST name_index name_definition_ref
+               attr_schema_location root_attrs l w = true ->
+  run_ops2 T tab_el tab_at tab_en check_fn float_parse float_fmt LATEST name_index name_definition_ref
+           attr_schema_location root_attrs l w = Val w' ->
+  Core w' /\ FilesOwned w'.
+Proof. exact owned_histories2_all. Qed.
 
 (* AutosarModel::duplicate (PENDING for FilesInv of the copy): FilesOwned is kept, the models that were there keep their
    places and their invariant *)
